@@ -265,7 +265,14 @@ func init() {
 			ex.syncPoint(site)
 			f := vfield(fr, site, a[0], tn)
 			atomicVC(ex, f)
-			nv := tBVAdd((*f).(*Term), a[1].(*Term))
+			cur, d := (*f).(*Term), a[1].(*Term)
+			var nv *Term
+			if cur.Sort == SInt || d.Sort == SInt {
+				cur, d = ex.coerceInts(cur, d, true)
+				nv = tIntAdd(cur, d)
+			} else {
+				nv = tBVAdd(cur, d)
+			}
 			*f = nv
 			return nv
 		})
